@@ -75,6 +75,7 @@ pub fn run_target(target: &str, data: &[u8]) -> Result<(), Fail> {
             let b: u8 = u.arbitrary().unwrap_or(0);
             let tamper = match kind % 14 {
                 12 => c04::Tamper::AltEncoding(b % 12),
+                13 => c04::Tamper::DisplacedR(b % 32),
                 11 => c04::Tamper::Multi(b, multi_from((a as u32).wrapping_mul(65537).wrapping_add(b as u32), b)),
                 0 => c04::Tamper::FlipBit(a % 512),
                 1 => c04::Tamper::SetComponent(b % 2, (a % 8) as u8),
@@ -97,7 +98,8 @@ pub fn run_target(target: &str, data: &[u8]) -> Result<(), Fail> {
             let kind: u8 = u.arbitrary().unwrap_or(0);
             let a: u32 = u.arbitrary().unwrap_or(0);
             let b: u8 = u.arbitrary().unwrap_or(0);
-            let tamper = match kind % 11 {
+            let tamper = match kind % 12 {
+                11 => c06::Tamper::C1NearCurveForged(a as u16),
                 9 => c06::Tamper::Multi(b, multi_from(a, b)),
                 0 => c06::Tamper::FlipBit(a),
                 1 => c06::Tamper::Truncate(a as u16),
